@@ -236,6 +236,7 @@ func checkC04(c *Ctx, r *Report) {
 
 	durationUnitRule(c, r)
 	elementCoverageRule(c, r)
+	validatedIsReturnedRule(c, r)
 	// ---- R04d ----
 	r.Rule("R04d", "parseValidatorTags is called only by accessField on the struct tag named by options.validatorTag; every fieldOptions built in reifyStruct / validateStruct takes its validators from accessField's result", 4)
 	pvt := c.Func("", "parseValidatorTags")
@@ -767,4 +768,79 @@ func reachableWithin(from, to *ssa.BasicBlock, avoid, within map[*ssa.BasicBlock
 		}
 	}
 	return false
+}
+
+// validatedIsReturnedRule (R04g): what is validated is what is returned. R04a/b demand that a validation call
+// lies on every path to a successful return; this rule compares the operands: the value handed to
+// runValidators / tryValidate and the value returned are the same value up to wrappers that do not change
+// content (pointerize, chaseValue*, Elem, Addr, Convert, Interface, ValueOf, Indirect). A validation of the
+// zero value taken before InitDefaults ran, followed by the return of the initialised copy, passes R04a/b.
+func validatedIsReturnedRule(c *Ctx, r *Report) {
+	r.Rule("R04g", "the operand of runValidators / tryValidate in a value-producing routine is the value it returns (up to pointer/interface wrappers)", 3)
+	rv := c.Func("", "runValidators")
+	tv := c.Func("", "tryValidate")
+	preserving := map[string]int{"pointerize": 2, "chaseValuePointers": 0, "chaseValueInterfaces": 0, "chaseValue": 0, "Elem": 0, "Addr": 0, "Convert": 0, "Interface": 0, "ValueOf": 0, "Indirect": 0}
+	// strip follows a value back through the wrappers that do not change content; it stops at anything else
+	// (tryInitDefaults in particular: it may run InitDefaults on a copy)
+	var strip func(v ssa.Value, d int) ssa.Value
+	strip = func(v ssa.Value, d int) ssa.Value {
+		if d > 12 {
+			return v
+		}
+		switch x := v.(type) {
+		case *ssa.Call:
+			if g := x.Call.StaticCallee(); g != nil {
+				if idx, ok := preserving[g.Name()]; ok && idx < len(x.Call.Args) && (c.InRepo(g) || g.Pkg != nil && g.Pkg.Pkg.Path() == "reflect") {
+					return strip(x.Call.Args[idx], d+1)
+				}
+			}
+		case *ssa.MakeInterface:
+			return strip(x.X, d+1)
+		case *ssa.ChangeInterface:
+			return strip(x.X, d+1)
+		case *ssa.UnOp:
+			if x.Op == token.MUL {
+				if vals, ok := localStores(x.X); ok && len(vals) == 1 {
+					return strip(vals[0], d+1)
+				}
+			}
+		}
+		return v
+	}
+	for _, fn := range c.SrcFuncs() {
+		if fn.Pkg != c.SSA[""] || fn.Parent() != nil {
+			continue
+		}
+		res := fn.Signature.Results()
+		if res.Len() < 2 || !isNamed(res.At(0).Type(), "reflect", "Value") {
+			continue
+		}
+		var vcalls []*ssa.Call
+		for _, ci := range CallsIn(fn, false) {
+			if call, ok := ci.(*ssa.Call); ok && (IsCallTo(call, rv) || IsCallTo(call, tv)) {
+				vcalls = append(vcalls, call)
+			}
+		}
+		if len(vcalls) == 0 {
+			continue
+		}
+		name := c.FnName(fn)
+		for _, ret := range Returns(fn) {
+			if !IsNilConst(RetVal(ret, res.Len()-1)) {
+				continue
+			}
+			retCore := strip(RetVal(ret, 0), 0)
+			for _, vc := range vcalls {
+				if !InstrDominates(vc, ret) {
+					continue
+				}
+				operand := vc.Call.Args[0]
+				opCore := strip(operand, 0)
+				what := "operand of " + vc.Call.StaticCallee().Name()
+				same := retCore == opCore || SameValue(retCore, opCore)
+				r.Check(same, "R04g", name, what, c.Pos(vc.Pos()), "validates the value that is returned ("+opCore.Name()+")",
+					"the value validated ("+opCore.Name()+" = "+clip(opCore.String(), 80)+") is not the value returned ("+retCore.Name()+" = "+clip(retCore.String(), 80)+") up to pointer/interface wrappers — a default that InitDefaults produced (or a converted value) escapes its validators")
+			}
+		}
+	}
 }
